@@ -162,6 +162,23 @@ fn cmd_front(casefile: &str, with_plans: bool, with_doc: bool) {
             .get(4)
             .map(|s| s.split(':').filter(|x| !x.is_empty()).map(PathBuf::from).collect())
             .unwrap_or_default();
+        if entry == "libgen" {
+            // the real library entry point used from build scripts
+            let res = catch_unwind(AssertUnwindSafe(|| {
+                idlc::Language::Rust.generate(&incs, Path::new(main)).map(|d| d.len()).map_err(|e| e.to_string())
+            }));
+            writeln!(out, "@case {}", id).unwrap();
+            match res {
+                Ok(Ok(n)) => writeln!(out, "@result ok {}", n).unwrap(),
+                Ok(Err(e)) => writeln!(out, "@result reject {} 0 {}", classify(&e, 9), one_line(&e)).unwrap(),
+                Err(_) => {
+                    let m = last_panic();
+                    writeln!(out, "@result reject {} 0 {}", classify(&m, 9), one_line(&m)).unwrap()
+                }
+            }
+            writeln!(out, "@end").unwrap();
+            continue;
+        }
         let r = run_front(Path::new(main), &incs, entry, flags.contains("ub"));
         writeln!(out, "@case {}", id).unwrap();
         if r.ok {
